@@ -140,6 +140,10 @@ func (e *Engine) WriteEvidence(res *CheckResult, seed int, checkerCmd string, ex
 				pruned = append(pruned, shortKey(name)+": path not verified beyond: "+p)
 			}
 			for k := range r.Ctx.Trusted {
+				if strings.HasPrefix(k, "ghost definition") {
+					trustedSet["ASSUMED, not proved (the clause defines how the function moves ghost state; the body has no ghost code to check it against): "+k] = true
+					continue
+				}
 				trustedSet["library function modelled by its documented semantics: "+k] = true
 			}
 			for _, t := range r.Ctx.TypingUsed {
